@@ -1,6 +1,6 @@
 #!/bin/sh
 # usage: tools/mut.sh <patch.diff> <prop> [extra vx args]  — apply a seeded change to /repo, run the check, undo.
 patch="$1"; prop="$2"; shift 2
-git -C /repo apply "$patch" 2>/dev/null || git -C /repo apply --3way "$patch" || { echo "patch does not apply"; exit 3; }
+git -C /repo apply "$patch" 2>/dev/null || git -C /repo apply --3way "$patch" || { echo "patch does not apply"; git -C /repo reset -q --hard HEAD; exit 3; }
 trap 'git -C /repo reset -q --hard HEAD ; git -C /repo status --short | grep -v gomodvendor' EXIT
 timeout ${MUT_TIMEOUT:-1500} /verif/bin/vx check -prop "$prop" -tier ${TIER:-quick} -no-evidence "$@" 2>&1 | tail -${TAIL:-6}
